@@ -90,6 +90,34 @@ def tables(index, conv):
     return out
 
 
+def single_implementation(index, rep):
+    """the conversion routines analysed here are the ones every quantity uses: no class derived from UnitConversions replaces one of
+    them with logic of its own (an override that only hands over to super() is none)"""
+    rule = "C10.IMPL"
+    uc_methods = index.methods(UC, "UnitConversions")
+    conv_names = {n for n in uc_methods if n.startswith(("in_units", "get_conversion", "get_kcal_multipliers", "get_fat_multipliers",
+                                                          "get_protein_multipliers", "get_units", "set_units", "get_conversions"))}
+    n = 0
+    for rel in index.py_files("src"):
+        for c in [x for x in ast.walk(index.module(rel)) if isinstance(x, ast.ClassDef)]:
+            if not any(isinstance(b, ast.Name) and b.id == "UnitConversions" for b in c.bases):
+                continue
+            own = {m.name: m for m in c.body if isinstance(m, ast.FunctionDef)}
+            bad = []
+            for name in sorted(conv_names & set(own)):
+                body = [s_ for s_ in own[name].body if not (isinstance(s_, ast.Expr) and isinstance(s_.value, ast.Constant))]
+                only_super = len(body) == 1 and isinstance(body[0], ast.Return) and isinstance(body[0].value, ast.Call) \
+                    and norm_src(body[0].value.func) == f"super().{name}"
+                if not only_super:
+                    bad.append(f"{c.name}.{name} (line {own[name].lineno})")
+            n += 1
+            rep.check(not bad, rule, f"{rel}:{c.name}: conversion routines inherited unchanged",
+                      f"{', '.join(bad)} replaces a conversion routine of UnitConversions with its own logic: quantities of this class are not "
+                      "converted by the tables whose identities are checked here (round trips, anchors, via-intermediate equality)", loc=loc(rel, c))
+    if n < 1:
+        raise AnalysisError("no class derives from UnitConversions (Food expected)")
+
+
 def run(index, rep):
     rep.trusted_base = [
         "CPython ast module parses the source the interpreter would run",
@@ -98,6 +126,7 @@ def run(index, rep):
         "parameters (kcals_daily, fat_daily, protein_daily, population) non-zero; real arithmetic (float rounding not modelled)",
     ]
     rep.guard(pure, index, rep)
+    rep.guard(single_implementation, index, rep)
     conv = rep.guard(build_conversions, index)
     if conv is None:
         return
